@@ -53,6 +53,11 @@ def grids(tier, seed):
             for reps in (1, 2) if q else (1, 2, 3):
                 for s in range(2 if q else 5):
                     out.append(("RandomBinaryTree", dict(num_variables=n, depth=depth, num_repetitions=reps, seed=seed * 100 + s)))
+    # repetitions with random splits: two repetitions may agree on an upper split and differ below
+    for n in (4, 5, 6) if q else (4, 5, 6, 7, 8):
+        for s in range(10 if q else 40):
+            out.append(("RandomBinaryTree", dict(num_variables=n, depth=None, num_repetitions=2, seed=1000 + seed * 100 + s)))
+            out.append(("LinearTree", dict(num_variables=n, num_repetitions=2, randomize=True, seed=seed * 100 + s)))
     for n in range(1, 5 if q else 8):
         orders = list(itertools.permutations(range(n))) if n <= (3 if q else 4) else [None, list(reversed(range(n)))]
         for o in orders:
@@ -72,6 +77,10 @@ def grids(tier, seed):
         for delta in (1, 2, [1, 2], [[1, 1], [2, 2]], 1.5):
             for md in (None, 1, 2):
                 out.append(("PoonDomingos", dict(shape=sh, delta=delta, max_depth=md)))
+    for d in range(2, 5 if q else 6):
+        # balanced full-factorial data: the estimated mutual information between groups is exactly 0
+        out.append(("ChowLiuTree", dict(d=d, kind="factorial", root=None, dseed=seed + d)))
+        out.append(("ChowLiuTree", dict(d=d, kind="factorial-gaussian", root=0, dseed=seed + d)))
     for d in range(2, 5 if q else 7):
         for kind in ("categorical", "gaussian", "mixed"):
             for root in [None] + list(range(d)):
@@ -99,6 +108,12 @@ def construct(name, kw):
         g = torch.Generator().manual_seed(kw["dseed"])
         d = kw["d"]
         n = 200
+        if kw["kind"].startswith("factorial"):
+            # every combination of d binary factors equally often (two replicates)
+            combos = torch.tensor(list(itertools.product([0, 1], repeat=d)) * 2)
+            if kw["kind"] == "factorial":
+                return RG.ChowLiuTree(combos.long(), "categorical", root=kw["root"], num_categories=2)
+            return RG.ChowLiuTree(combos.double() * 2.0 - 1.0, "gaussian", root=kw["root"])
         z = torch.randn(n, d, generator=g)
         z = z + 0.7 * z[:, [0]]  # some dependence
         if kw["kind"] == "categorical":
@@ -201,6 +216,11 @@ def build_modes(rng):
     def prod_factory(ni, arity):
         return L.HadamardLayer(ni, arity=arity)
     modes.append(("explicit", dict(sum_factory=sum_factory, prod_factory=prod_factory)))
+
+    def kron_factory(ni, arity):
+        return L.KroneckerLayer(ni, arity=arity)  # a product factory that changes the unit count
+
+    modes.append(("explicit-kron", dict(sum_factory=sum_factory, prod_factory=kron_factory)))
     return modes
 
 
